@@ -1,5 +1,6 @@
 """C07 - parse() is total: Pairs or PestParsingError (exception-freedom of the interpreter parse path)."""
 from . import groups as g
+from . import ops, unroll_struct
 
 PROPERTY = "C07"
 EXPLANATION = (
@@ -10,13 +11,17 @@ EXPLANATION = (
 )
 TRUSTED = g.COMMON_TRUSTED
 ASSUMPTIONS = [*g.COMMON_ASSUMPTIONS, "RecursionError / MemoryError are not modelled"]
-BOUNDED: list[str] = []
+BOUNDED = ["bounded repetitions e{n}, e{n,}, e{,n}, e{m,n}: the delegation to the unrolled sequence is proved for all n; that unroll() builds the named sequence is run concretely for parameters 0..5 (contracts/unroll_struct.py)"]
 # functional clauses belong to C03-C06; C07 keeps exception-freedom, callee preconditions, loop invariants, entry point
 DROP_CLAUSES = r"^(K\.st\.|K\.pairs|G\.|frame\.)"
 
 
 def specs(tier):
-    return [*g.core_terminals(), *g.stack_terminals(), *g.structure(), *g.backtracking(), *g.rules(), *g.trivia(), *g.entry()]
+    return [*g.core_terminals(), *g.stack_terminals(), *g.structure(), *g.backtracking(), *ops.bounded_repeat_specs(), *g.rules(), *g.trivia(), *g.entry()]
 
 from .groups import concretise_ops
 concretise = concretise_ops(PROPERTY)
+
+
+def extra_checks(tier, seed):
+    return [unroll_struct.check()]
